@@ -502,6 +502,9 @@ def array_token(P, R, rule):
                         whole = True
                     if isinstance(x.func, ast.Attribute) and isinstance(x.func.value, ast.Name) and x.func.value.id == a and x.func.attr in ('to_numpy', 'tolist', '__reduce__', '__getstate__', 'astype'):
                         whole = True
+                    if isinstance(x.func, ast.Attribute) and x.func.attr == 'buffers' and isinstance(x.func.value, ast.Attribute) and isinstance(x.func.value.value, ast.Name) \
+                            and x.func.value.value.id == a and x.func.value.attr in ('data', '_data'):
+                        raw_arrow = 'offset' not in {y.attr for e2 in exp for y in ast.walk(e2) if isinstance(y, ast.Attribute)} or raw_arrow
         has_dtype = bool(attrs & {'dtype', 'numpy_dtype', '_dtype', '_numpy_dtype'}) or any('.data.type' in norm(e_) for e_ in exp)
         R.check(bool(rets) and has_dtype, rule, g_, rets[0] if rets else None, f'the token of a {ci.name} includes its dtype (coordinate subtype)',
                 f'the token {g_.name} computes for a {ci.name} does not include the dtype: arrays with equal numbers and different coordinate subtypes get one token',
